@@ -86,7 +86,7 @@ fn child_main() {
 
 fn configs(tier: verif_common::Tier, shape: Option<&str>) -> Vec<Cfg> {
     let mut v = Vec::new();
-    let modes = [Mode::Generous, Mode::Short, Mode::Forced];
+    let base = [Mode::Generous, Mode::Short, Mode::Forced];
     // debugging aid: --shape "w,c,r;w,c,r"
     let custom: Vec<(u8, u8, u8)> = shape
         .map(|s| {
@@ -107,6 +107,14 @@ fn configs(tier: verif_common::Tier, shape: Option<&str>) -> Vec<Cfg> {
         &[(1, 1, 2), (2, 1, 1), (1, 2, 2), (2, 2, 1)]
     };
     for &(workers, clients, max_req) in shapes {
+        let mut modes = base.to_vec();
+        // Graceful with an effectively unbounded timeout (Duration::MAX), and with a huge finite
+        // one (u64::MAX / 4 s) in the smaller shapes.
+        modes.push(Mode::Unbounded);
+        let small = if tier.is_thorough() { clients <= 2 } else { clients <= 1 };
+        if small {
+            modes.push(Mode::Huge);
+        }
         for mode in modes {
             v.push(Cfg {
                 workers,
@@ -463,7 +471,7 @@ pub fn main() {
         "evaluations": results.len(),
         "distinct_nontrivial": nontrivial.len(),
         "exhaustive": exhaustive,
-        "rule": "Alphabet: environment actions Connect(i) / Send(i) (one complete HTTP/1.1 request, no pipelining) / Open(i) (open the gate the handler of client i blocks on) / Call{late} (call ServerHandle::shutdown(mode); late = a further client connects and sends right after the call) and thread releases RelA / RelW(w) at the H2 checkpoints (A_LOOP, A_MSG, A_SHUTDOWN_SENT, W_LOOP, W_MSG, W_DRAINED; A_DISPATCHED is passed through). Bound: per configuration (workers, clients, max requests per connection, mode in {Generous: Graceful(2000 ms) every gate opens; Short: Graceful(150 ms) gate of c0's first request never opens; Forced}) the shadow model of Appendix C is explored exhaustively (BFS, all enabled actions in every state; Send/Connect only before the call); a set of maximal schedules covering EVERY transition of that graph is executed on the real server (fresh server per schedule, every predicted checkpoint/handler/response/close event awaited and compared = trace validated). Oracle (facts observed on the real server only): in graceful modes every request whose bytes were fully sent and whose connection had been handed to a worker (queued / started / keep-alive) or whose handler had been entered before the call, and whose gate opens, gets a complete 200 response with the right body; no connection made after the call reaches A_MSG; a connection made after the shutdown future resolved is refused or never answered; Forced resolves within 400 ms of A_SHUTDOWN_SENT; graceful does not resolve earlier than `timeout` after the call while a handler is still blocked on a closed gate, within timeout+400 ms, and within 400 ms of the last harness action when nothing stays blocked; awaiting the handle resolves within 400 ms of the shutdown future. Non-trivial = schedule in which at least one request was sent and still unanswered when shutdown() was called; distinct = distinct schedules.",
+        "rule": "Alphabet: environment actions Connect(i) / Send(i) (one complete HTTP/1.1 request, no pipelining) / Open(i) (open the gate the handler of client i blocks on) / Call{late} (call ServerHandle::shutdown(mode); late = a further client connects and sends right after the call) and thread releases RelA / RelW(w) at the H2 checkpoints (A_LOOP, A_MSG, A_SHUTDOWN_SENT, W_LOOP, W_MSG, W_DRAINED; A_DISPATCHED is passed through). Bound: per configuration (workers, clients, max requests per connection, mode in {Generous: Graceful(2000 ms) every gate opens; Unbounded: Graceful(Duration::MAX) every gate opens; Huge: Graceful(u64::MAX/4 s) every gate opens, smaller shapes only; Short: Graceful(150 ms) gate of c0's first request never opens; Forced}) the shadow model of Appendix C is explored exhaustively (BFS, all enabled actions in every state; Send/Connect only before the call); a set of maximal schedules covering EVERY transition of that graph is executed on the real server (fresh server per schedule, every predicted checkpoint/handler/response/close event awaited and compared = trace validated). Oracle (facts observed on the real server only): in graceful modes every request whose bytes were fully sent and whose connection had been handed to a worker (queued / started / keep-alive) or whose handler had been entered before the call, and whose gate opens, gets a complete 200 response with the right body; no connection made after the call reaches A_MSG; a connection made after the shutdown future resolved is refused or never answered; Forced resolves within 400 ms of A_SHUTDOWN_SENT; graceful does not resolve earlier than `timeout` after the call while a handler is still blocked on a closed gate, within timeout+400 ms, and within 400 ms of the last harness action when nothing stays blocked; awaiting the handle resolves within 400 ms of the shutdown future. Non-trivial = schedule in which at least one request was sent and still unanswered when shutdown() was called; distinct = distinct schedules.",
         "samples": samples,
         "per_configuration": per_cfg,
         "executed_per_configuration": completed,
